@@ -500,6 +500,9 @@ public:
   // RHD driver: number of task slots that legitimately stay in use (the
   // persistent hydro tasks); -1 = ionization driver
   long persistent_tasks = -1;
+  // ionization driver: the locks and buffers of the continuous source blocks
+  std::vector< ThreadLock > *source_locks = nullptr;
+  std::vector< std::vector< PhotonBuffer > > *source_buffers = nullptr;
 
   LedgerT() {
     for (int k = 0; k < TRAVELDIRECTION_NUMBER; ++k)
@@ -688,6 +691,14 @@ public:
     switch (kind) {
     case CMI_VERIF_EVENT_ITERATION_BEGIN: {
       creator = (DensitySubGridCreator< SG > *)a;
+      if (b != nullptr) {
+        const void *const *br = (const void *const *)b;
+        source_locks = (std::vector< ThreadLock > *)br[0];
+        source_buffers = (std::vector< std::vector< PhotonBuffer > > *)br[1];
+      } else {
+        source_locks = nullptr;
+        source_buffers = nullptr;
+      }
       iteration = (int)x;
       requested = y;
       launched = 0;
@@ -764,6 +775,33 @@ public:
                     (unsigned)sb.size()));
           break;
         }
+        // a continuous source task fills the buffers of one block and must
+        // hold that block's lock while it does
+        if (y == 1 && source_locks && source_buffers) {
+          long block = -1;
+          for (size_t k = 0; k < source_buffers->size(); ++k) {
+            const std::vector< PhotonBuffer > &v = (*source_buffers)[k];
+            if (!v.empty() && &sb >= &v[0] && &sb < &v[0] + v.size())
+              block = (long)k;
+          }
+          if (block < 0 || (size_t)block >= source_locks->size()) {
+            fail("source-buffer-shared",
+                 sfmt("packet %llu launched into a buffer that belongs to no "
+                      "continuous source block",
+                      (unsigned long long)id));
+            break;
+          }
+          const int holder = lock_holder(&(*source_locks)[(size_t)block]);
+          ++stats["source_lock_checks"];
+          if (holder != current_fiber()) {
+            fail("lock-not-held",
+                 sfmt("packet %llu launched by thread %d into continuous "
+                      "source block %ld without holding that block's lock "
+                      "(holder: %d)",
+                      (unsigned long long)id, current_fiber(), block, holder));
+            break;
+          }
+        }
         // (discrete source tasks size their private buffer up front)
         if (y == 1 && (long)sb.size() != slot + 1) {
           fail("source-buffer-shared",
@@ -813,6 +851,17 @@ public:
       ++stats[y == TASKTYPE_PHOTON_TRAVERSAL ? "traversal_tasks"
                                              : "reemit_tasks"];
       const int me = current_fiber();
+      if (y == TASKTYPE_PHOTON_TRAVERSAL && b != nullptr) {
+        const int holder = lock_holder(((SG *)b)->get_dependency());
+        ++stats["subgrid_lock_checks"];
+        if (holder != me) {
+          fail("lock-not-held",
+               sfmt("traversal task on subgrid %ld started on thread %d "
+                    "without holding the lock of that subgrid (holder: %d)",
+                    x, me, holder));
+          break;
+        }
+      }
       if (buf.size() > PHOTONBUFFER_SIZE) {
         fail("buffer-overflow", sfmt("task input buffer holds %u packets",
                                      (unsigned)buf.size()));
